@@ -5,6 +5,7 @@ import shutil
 import tempfile
 import numpy as np
 from hypothesis import strategies as st
+from vlib import strategies as S
 
 from vlib.runner import Outcome, cut, CutError, close, maxrel
 from vlib import ref
@@ -29,6 +30,8 @@ ASSUMPTIONS = [
 ]
 REQUIRED = {'negative-node': 0.006, 'kind:npoint': 0.08, 'kind:guillot': 0.06, 'kind:array': 0.04, 'kind:file': 0.03, 'kind:rodgers': 0.04,
             'kind:isothermal': 0.02, 'rejected-class': 0.04}
+# coverage-guided extra (thorough tier): pure-Python taurex modules on this property's path, instrumented by atheris
+FUZZ = {'include': ['taurex.data.profiles.temperature'], 'runs': 40000, 'workers': 4}
 MJUP = 1.2668653e17 / 6.6743e-11
 RJUP = 71492000.0
 
@@ -45,7 +48,7 @@ def _case(draw):
     if kind == 'isothermal':
         c['T'] = draw(tf)
     elif kind == 'npoint':
-        k = draw(st.integers(0, 6))
+        k = draw(S.ints(0, 6))
         c['T_surface'], c['T_top'] = draw(tf), draw(tf)
         c['t_points'] = draw(st.lists(tf, min_size=k, max_size=k))
         inc = draw(st.lists(st.floats(0.05, 1.0), min_size=k + 1, max_size=k + 1))
@@ -70,13 +73,13 @@ def _case(draw):
         c['reverse'] = draw(st.booleans())
         c['pspan'] = [draw(st.floats(-0.3, 0.3)), draw(st.floats(0.7, 1.3))]
     elif kind == 'file':
-        k = draw(st.integers(2, 12))
+        k = draw(S.ints(2, 12))
         c['T'] = draw(st.lists(tf, min_size=k, max_size=k))
         c['with_p'] = draw(st.booleans())
-        c['skip'] = draw(st.integers(0, 2))
+        c['skip'] = draw(S.ints(0, 2))
         c['delim'] = draw(st.sampled_from([None, ',', None]))
         c['punit'] = draw(st.sampled_from(['Pa', 'bar', 'Pa']))
-        c['tcol'] = draw(st.integers(0, 2))
+        c['tcol'] = draw(S.ints(0, 2))
     elif kind == 'rodgers':
         c['T'] = draw(st.lists(tf, min_size=nl, max_size=nl))
         c['corr'] = draw(st.floats(0.01, 50.0))
